@@ -340,35 +340,48 @@ static void noteSkipped(const Frame& F, size_t from, size_t to) {
   }
 }
 
-// ------------------------------------------------------------------------------------------------ structural walk
-// returns 0 when the structures match, otherwise a short stable kind; msg gets the details.
-// strict (quiescent): no activation, not dirty, every record connected, emitter-side sequence == model's live sequence.
-// relaxed (inside emissions, attribution only): records in state disconnected are ignored, connecting is expected for records younger than the outermost emission.
+// ------------------------------------------------------------------------------------------------ structural walk (normal flavour only)
 static long g_recordsCompared = 0, g_twinStatesWalked = 0;   // g_twinStatesWalked: listener-side comparisons made while that listener slot was connected to two signals of the emitter
+static long g_ops = 0;   // API-level operations (connect / disconnect / emit / create / delete), flushed as counter "ops" (exists in both flavours)
+#ifndef VERIF_NO_PRIVATE
+// returns 0 when the structures match, otherwise a short stable kind; msg gets the details.
+// What is compared is what the property states and nothing else: per signal, the emitter-side records that are NOT marked disconnected are exactly the model's live
+// connections, in connection order (= the order an emission walks them); per (emitter, signal, slot) the listener side lists as many records as the model has live
+// connections. Not asked for (implementation details no caller can observe): the container types (auto iterators only), the order of listener-side records, entries
+// that hold no record, and when the deferred clean-up runs - records marked disconnected are tombstones that describe no connection wherever they are met, a dirty flag
+// still set at a quiescent point and a record still "connecting" while that flag is set are clean-up that is still pending (counted, no verdict).
+// strict (quiescent): additionally the design invariants every implementation of this design keeps: no activation object is registered (they live in the frames of
+//   emit calls, none is running), the list's size equals its linked items, and a record still "connecting" with a clear dirty flag is an error (nothing would ever
+//   promote it: a live connection no emission invokes).
+// relaxed (inside emissions, attribution only): connecting is expected exactly for records younger than the outermost emission.
+static long g_tombstonesAtQuiescence = 0, g_dirtyAtQuiescence = 0, g_connectingAtQuiescence = 0, g_unknownEmptyEntries = 0;
 static const char* walkEmitter(EmM* e, bool strict, char* msg, size_t msgsz) {
   Callback::Emitter& ce = *e->obj;
   bool seen[MAXS]; for (int i = 0; i < MAXS; ++i) seen[i] = false;
   long guard = 0;
-  for (Map<Callback::MemberFuncPtr, Callback::Emitter::SignalData>::Iterator it = ce.signalData.begin(); it != ce.signalData.end(); ++it) {
-    if (++guard > 64) { snprintf(msg, msgsz, "E%d: signalData has more than 64 entries (cycle?)", e->idx); return "emitter-side-map-corrupt"; }
+  for (auto it = ce.signalData.begin(), itEnd = ce.signalData.end(); it != itEnd; ++it) {
+    if (++guard > 100000) { snprintf(msg, msgsz, "E%d: the per-signal container does not end (cycle?)", e->idx); return "emitter-side-map-corrupt"; }
+    auto& d = *it;
     int sig = sigIndexOfKey(e, it.key());
-    if (sig < 0 || seen[sig]) { snprintf(msg, msgsz, "E%d: signalData has an entry for an unknown or repeated signal key", e->idx); return "emitter-side-unknown-signal"; }
-    seen[sig] = true;
-    Callback::Emitter::SignalData& d = *it;
-    if (strict) {
-      if (d.activation) { snprintf(msg, msgsz, "E%d.%s: activation chain not empty although no emission is in progress", e->idx, SN(e, sig)); return "emitter-side-activation-left"; }
-      if (d.dirty) { snprintf(msg, msgsz, "E%d.%s: dirty flag still set although no emission is in progress", e->idx, SN(e, sig)); return "emitter-side-dirty-left"; }
+    if (sig < 0) {
+      // an entry for a signal this emitter object never had a connection on describes no connection as long as it holds no record (tombstones aside)
+      long walked = 0, holds = 0;
+      for (auto s = d.slots.begin(), sEnd = d.slots.end(); s != sEnd; ++s) { if (++walked > 100000) break; if ((int)s->state != (int)Callback::Emitter::Slot::disconnected) ++holds; }
+      if (holds || walked > 100000) { snprintf(msg, msgsz, "E%d: emitter side holds %ld record(s) under a signal key that was never connected on this emitter", e->idx, holds); return "emitter-side-unknown-signal"; }
+      ++g_unknownEmptyEntries;
+      continue;
     }
+    if (seen[sig]) { snprintf(msg, msgsz, "E%d.%s: two emitter-side entries for one signal key", e->idx, SN(e, sig)); return "emitter-side-map-corrupt"; }
+    seen[sig] = true;
+    if (strict && d.activation) { snprintf(msg, msgsz, "E%d.%s: an activation is still registered although no emission is in progress (it would dangle)", e->idx, SN(e, sig)); return "emitter-side-activation-left"; }
     const Vec<Rec>& v = e->recs[sig];
-    size_t mp = 0; long n = 0, walked = 0;
-    for (List<Callback::Emitter::Slot>::Iterator s = d.slots.begin(); s != d.slots.end(); ++s) {
+    size_t mp = 0; long n = 0, walked = 0, tomb = 0, connecting = 0;
+    for (auto s = d.slots.begin(), sEnd = d.slots.end(); s != sEnd; ++s) {
       if (++walked > 100000) { snprintf(msg, msgsz, "E%d.%s: slot list does not end (cycle)", e->idx, SN(e, sig)); return "emitter-side-list-corrupt"; }
       int st = (int)s->state;
-      if (strict && st != (int)Callback::Emitter::Slot::connected) {
-        snprintf(msg, msgsz, "E%d.%s: record #%ld is in state %s although no emission is in progress", e->idx, SN(e, sig), walked - 1, st == (int)Callback::Emitter::Slot::connecting ? "connecting" : "disconnected");
-        return st == (int)Callback::Emitter::Slot::connecting ? "emitter-side-leftover-connecting-record" : "emitter-side-leftover-disconnected-record";
-      }
-      if (!strict && st == (int)Callback::Emitter::Slot::disconnected) continue;
+      if (st == (int)Callback::Emitter::Slot::disconnected) { ++tomb; continue; }   // tombstone: describes no connection
+      if (st == (int)Callback::Emitter::Slot::connecting) ++connecting;
+      else if (st != (int)Callback::Emitter::Slot::connected) { snprintf(msg, msgsz, "E%d.%s: record #%ld has the invalid state value %d", e->idx, SN(e, sig), walked - 1, st); return "emitter-side-record-state-invalid"; }
       while (mp < v.n && !v[mp].live) ++mp;
       ++g_recordsCompared;
       if (mp == v.n) {
@@ -386,17 +399,24 @@ static const char* walkEmitter(EmM* e, bool strict, char* msg, size_t msgsz) {
         snprintf(msg, msgsz, "E%d.%s: live record #%ld differs: model expects L%d.%s", e->idx, SN(e, sig), n, rc.l->idx, LN(e, sig, rc.which));
         return known ? "emitter-side-record-order" : "emitter-side-stale-record";
       }
-      if (!strict) {
-        bool wantConnecting = e->depth[sig] > 0 && rc.serial >= e->outerStart[sig];
+      if (!strict && e->depth[sig] > 0) {   // only while this signal is being emitted (otherwise a record still connecting is clean-up that is pending)
+        bool wantConnecting = rc.serial >= e->outerStart[sig];
         if ((st == (int)Callback::Emitter::Slot::connecting) != wantConnecting) { snprintf(msg, msgsz, "E%d.%s: record #%ld state %d, expected %s", e->idx, SN(e, sig), n, st, wantConnecting ? "connecting" : "connected"); return "emitter-side-record-state"; }
       }
       ++mp; ++n;
     }
-    if (strict && (long)d.slots.size() != walked) { snprintf(msg, msgsz, "E%d.%s: List size %ld but %ld items linked", e->idx, SN(e, sig), (long)d.slots.size(), walked); return "emitter-side-list-corrupt"; }
+    if (strict && (long)d.slots.size() != walked) { snprintf(msg, msgsz, "E%d.%s: the slot list reports size %ld but %ld items are linked", e->idx, SN(e, sig), (long)d.slots.size(), walked); return "emitter-side-list-corrupt"; }
     while (mp < v.n && !v[mp].live) ++mp;
     if (mp != v.n) { snprintf(msg, msgsz, "E%d.%s: live connection to L%d.%s has no record on the emitter side (%ld found)", e->idx, SN(e, sig), v[mp].l->idx, LN(e, sig, v[mp].which), n); return "emitter-side-missing-record"; }
+    if (strict) {
+      if (connecting && !d.dirty) {
+        snprintf(msg, msgsz, "E%d.%s: %ld record(s) still in state connecting although no emission is in progress and the dirty flag is clear (nothing will promote them: no emission invokes them)", e->idx, SN(e, sig), connecting);
+        return "emitter-side-leftover-connecting-record";
+      }
+      g_tombstonesAtQuiescence += tomb; g_connectingAtQuiescence += connecting; if (d.dirty) ++g_dirtyAtQuiescence;
+    }
   }
-  for (int sig = 0; sig < MAXS; ++sig) if (!seen[sig] && liveCount(e, sig)) { snprintf(msg, msgsz, "E%d.%s: %ld live connection(s) but no signalData entry", e->idx, SN(e, sig), (long)liveCount(e, sig)); return "emitter-side-missing-record"; }
+  for (int sig = 0; sig < MAXS; ++sig) if (!seen[sig] && liveCount(e, sig)) { snprintf(msg, msgsz, "E%d.%s: %ld live connection(s) but no emitter-side entry for that signal", e->idx, SN(e, sig), (long)liveCount(e, sig)); return "emitter-side-missing-record"; }
   return 0;
 }
 
@@ -404,13 +424,13 @@ static const char* walkListener(LiM* l, char* msg, size_t msgsz) {
   Callback::Listener& cl = *l->obj;
   bool seenE[MAXE]; for (int i = 0; i < MAXE; ++i) seenE[i] = false;
   long guard = 0;
-  for (Map<Callback::Emitter*, List<Callback::Listener::Signal> >::Iterator it = cl.slotData.begin(); it != cl.slotData.end(); ++it) {
-    if (++guard > 100000) { snprintf(msg, msgsz, "L%d: slotData map does not end", l->idx); return "listener-side-map-corrupt"; }
+  for (auto it = cl.slotData.begin(), itEnd = cl.slotData.end(); it != itEnd; ++it) {
+    if (++guard > 100000) { snprintf(msg, msgsz, "L%d: the per-emitter container does not end", l->idx); return "listener-side-map-corrupt"; }
     EmM* e = liveEmitterAt(it.key());
-    List<Callback::Listener::Signal>& lst = *it;
+    auto& lst = *it;
     long have[MAXS][2]; for (int i = 0; i < MAXS; ++i) have[i][0] = have[i][1] = 0;
     long walked = 0;
-    for (List<Callback::Listener::Signal>::Iterator s = lst.begin(); s != lst.end(); ++s) {
+    for (auto s = lst.begin(), sEnd = lst.end(); s != sEnd; ++s) {
       if (++walked > 100000) { snprintf(msg, msgsz, "L%d: signal list does not end (cycle)", l->idx); return "listener-side-list-corrupt"; }
       ++g_recordsCompared;
       if (!e) { snprintf(msg, msgsz, "L%d: listener side still lists a connection to an emitter that was destroyed", l->idx); return "listener-side-record-for-destroyed-emitter"; }
@@ -420,12 +440,12 @@ static const char* walkListener(LiM* l, char* msg, size_t msgsz) {
       ++have[sig][wh];
     }
     if (!e) continue;   // stale key of a destroyed emitter with an empty list: describes no connection
-    if (seenE[e->idx]) { snprintf(msg, msgsz, "L%d: two slotData entries for E%d", l->idx, e->idx); return "listener-side-map-corrupt"; }
+    if (seenE[e->idx]) { snprintf(msg, msgsz, "L%d: two listener-side entries for E%d", l->idx, e->idx); return "listener-side-map-corrupt"; }
     seenE[e->idx] = true;
     long wantAll[MAXS][2];
     for (int sig = 0; sig < MAXS; ++sig) for (int wh = 0; wh < 2; ++wh) { long want = 0; const Vec<Rec>& v = e->recs[sig]; for (size_t q = 0; q < v.n; ++q) if (v[q].live && v[q].l == l && v[q].which == wh) ++want; wantAll[sig][wh] = want; }
-    // the listener keeps ONE list per emitter for all signals of that emitter: a record of this slot filed under another signal of the emitter than the one it
-    // is connected to (one signal has a record too many, a same-arity signal one too few for the same slot) is its own kind of divergence
+    // the listener keeps its records of one emitter together for all signals of that emitter: a record of this slot filed under another signal of the emitter than the
+    // one it is connected to (one signal has a record too many, a same-arity signal one too few for the same slot) is its own kind of divergence
     for (int sig = 0; sig < MAXS; ++sig) for (int wh = 0; wh < 2; ++wh) if (have[sig][wh] > wantAll[sig][wh])
       for (int s2 = 0; s2 < MAXS; ++s2) if (s2 != sig && e->ar[s2] == e->ar[sig] && have[s2][wh] < wantAll[s2][wh]) {
         snprintf(msg, msgsz, "L%d: listener side lists %ld connection(s) E%d.%s -> %s (model: %ld live) but only %ld connection(s) E%d.%s -> %s (model: %ld live): a record of that slot is filed under the wrong signal of the emitter",
@@ -441,7 +461,7 @@ static const char* walkListener(LiM* l, char* msg, size_t msgsz) {
   }
   for (int i = 0; i < g.NE; ++i) {
     EmM* e = g.em[i]; if (!e || !e->live || seenE[e->idx]) continue;
-    for (int sig = 0; sig < MAXS; ++sig) { const Vec<Rec>& v = e->recs[sig]; for (size_t q = 0; q < v.n; ++q) if (v[q].live && v[q].l == l) { snprintf(msg, msgsz, "L%d: live connection E%d.%s -> %s but no slotData entry for that emitter", l->idx, e->idx, SN(e, sig), LN(e, sig, v[q].which)); return "listener-side-missing-record"; } }
+    for (int sig = 0; sig < MAXS; ++sig) { const Vec<Rec>& v = e->recs[sig]; for (size_t q = 0; q < v.n; ++q) if (v[q].live && v[q].l == l) { snprintf(msg, msgsz, "L%d: live connection E%d.%s -> %s but no listener-side entry for that emitter", l->idx, e->idx, SN(e, sig), LN(e, sig, v[q].which)); return "listener-side-missing-record"; } }
   }
   return 0;
 }
@@ -451,22 +471,29 @@ static const char* walkAll(bool strict, char* msg, size_t msgsz) {
   for (int i = 0; i < g.NL; ++i) if (g.li[i] && g.li[i]->live) { const char* k = walkListener(g.li[i], msg, msgsz); if (k) return k; }
   return 0;
 }
+#endif   // !VERIF_NO_PRIVATE
 
 // after a nested action (an emission is in progress): attribution only
 static void diagnose() {
+#ifndef VERIF_NO_PRIVATE
   if (g.suspect || g.frames.n == 0) return;
   CtxScope cs; char saved[160]; snprintf(saved, sizeof saved, "%s", cs.saved);   // the context of the action that just ran
   setctxf("Callback.bookkeeping/walk-during-emission");
   char msg[256]; const char* k = walkAll(false, msg, sizeof msg);
   cnt("diagnostic_walks");
   if (k) { g.suspect = true; snprintf(g.suspectCtx, sizeof g.suspectCtx, "%s", saved); snprintf(g.suspectMsg, sizeof g.suspectMsg, "%s: %s", k, msg); histf("!! internal structures diverge from the model here (%s)", g.suspectMsg); }
+#endif
 }
 
-// after every top-level action: the verdict on "bookkeeping describes exactly the live connections"
+// after every top-level action: the verdict on "bookkeeping describes exactly the live connections" (normal flavour; in the fallback flavour that clause is only
+// checked indirectly: by what the following emissions - at the latest the final sweep - and destructions do under the model and ASan)
+static long g_quiescentPoints = 0;
 static void quiescentCheck() {
   if (g.frames.n) harnessBug("quiescentCheck inside an emission");
-  setctxf("Callback.bookkeeping/walk-after-%s", g.topAction);
   for (int i = 0; i < g.NE; ++i) if (g.em[i] && g.em[i]->live && anyEmitting(g.em[i])) harnessBug("model: emitter still emitting at a quiescent point");
+  ++g_quiescentPoints;
+#ifndef VERIF_NO_PRIVATE
+  setctxf("Callback.bookkeeping/walk-after-%s", g.topAction);
   char msg[256]; const char* k = walkAll(true, msg, sizeof msg);
   cnt("quiescent_walks");
   if (k) {
@@ -476,7 +503,25 @@ static void quiescentCheck() {
     fail(key, "at the quiescent point after top-level %s: %s%s%s", g.topAction, msg, g.suspect ? "; structures first diverged right after " : "", g.suspect ? g.suspectCtx : "");
   }
   if (g.suspect) cnt("diagnostic_divergence_without_verdict");
+#endif
   g.suspect = false;
+}
+// counters kept locally (vh::cnt is a linear search) and the statement of how the bookkeeping clause was checked in this build flavour
+static void flushWalkStats() {
+  cnt("ops", g_ops); g_ops = 0;
+  cnt("quiescent_points", g_quiescentPoints);
+  cnt("records_compared_by_walks", g_recordsCompared); g_recordsCompared = 0;
+  cnt("listener_walks_of_slot_on_two_signals_of_one_emitter", g_twinStatesWalked); g_twinStatesWalked = 0;
+#ifndef VERIF_NO_PRIVATE
+  setItem("bookkeeping_clause", "direct: private records of both sides walked against the model at every quiescent point");
+  cnt("tombstone_records_met_at_quiescent_points", g_tombstonesAtQuiescence); cnt("dirty_flag_set_at_quiescent_points", g_dirtyAtQuiescence);
+  cnt("connecting_records_pending_at_quiescent_points", g_connectingAtQuiescence); cnt("empty_entries_for_unconnected_signals", g_unknownEmptyEntries);
+  g_tombstonesAtQuiescence = g_dirtyAtQuiescence = g_connectingAtQuiescence = g_unknownEmptyEntries = 0;
+#else
+  setItem("bookkeeping_clause", "indirect only (no private access): via later emissions, final sweep, destructions, ASan");
+  cnt("quiescent_points_bookkeeping_checked_only_indirectly", g_quiescentPoints);
+#endif
+  g_quiescentPoints = 0;
 }
 
 // ------------------------------------------------------------------------------------------------ actions (model + real call)
@@ -490,8 +535,8 @@ static void actConnect(EmM* e, int sig, LiM* l, int which) {
   long twin = liveOnOtherSignals(e, sig, l, which), otherE = liveOnOtherEmitters(e, sig, l, which);
   histf("connect(E%d.%s -> L%d.%s)%s%s", e->idx, SN(e, sig), l->idx, LN(e, sig, which), dup ? "   # duplicate" : "", twin ? "   # this slot is also connected to another signal of this emitter" : "");
   Rec rc; rc.l = l; rc.which = which; rc.serial = g.serial++; rc.live = true; rc.why = W_LIVE; rc.diedAt = 0;
-  e->recs[sig].push(rc);
-  ++g.clock;
+  e->recs[sig].push(rc); e->everConn[sig] = true;
+  ++g.clock; ++g_ops;
   realConnect(e->obj, e->sid[sig], l->obj, which);
   sgEv(e->sid[sig], SE_CONNECT);
   if (twin) { cnt("same_slot_on_two_signals_of_one_emitter"); if (e->depth[sig] > 0) cnt("same_slot_on_two_signals_of_one_emitter_signal_emitting"); }
@@ -517,6 +562,7 @@ static void actDisconnect(EmM* e, int sig, LiM* l, int which) {
   histf("disconnect(E%d.%s -> L%d.%s)%s%s", e->idx, SN(e, sig), l->idx, LN(e, sig, which), hit == NPOS ? "   # not connected" : "", twin ? "   # this slot stays connected to another signal of this emitter" : "");
   ++g.clock;
   if (hit != NPOS) { v[hit].live = false; v[hit].why = g.frames.n && e->depth[sig] > 0 ? W_DISC_EMITTING : W_DISC_QUIESCENT; v[hit].diedAt = g.clock; }
+  ++g_ops;
   realDisconnect(e->obj, e->sid[sig], l->obj, which);
   sgEv(e->sid[sig], SE_DISCONNECT);
   if (twin) { cnt("disconnect_slot_also_on_other_signal_of_emitter"); if (olderTwin) cnt("disconnect_later_connected_of_two_signals_of_one_emitter"); if (e->depth[sig] > 0) cnt("disconnect_slot_also_on_other_signal_of_emitter_signal_emitting"); }
@@ -547,6 +593,7 @@ static void actEmit(EmM* e, int sig) {
   Em* obj = e->obj;
   arEv(e->ar[sig], AE_EMIT); if (e->depth[sig] > 1) arEv(e->ar[sig], AE_EMIT_RECURSIVE);
   sgEv(e->sid[sig], SE_EMIT);
+  ++g_ops;
   realEmit(obj, e->sid[sig], arg);
   // obj may be deleted by now; only the model is consulted
   setctxf("%s", myctx);
@@ -586,6 +633,7 @@ static void actDestroyL(LiM* l, bool own) {
   for (int i = 0; i < g.NE; ++i) { EmM* e = g.em[i]; if (!e || !e->live) continue; for (int sig = 0; sig < MAXS; ++sig) { Vec<Rec>& v = e->recs[sig]; for (size_t q = 0; q < v.n; ++q) if (v[q].live && v[q].l == l) { v[q].live = false; v[q].why = W_LISTENER_DESTROYED; v[q].diedAt = g.clock; } } }
   l->live = false;
   Li* obj = l->obj; l->obj = 0;
+  ++g_ops;
   delete obj;
   for (int i = 0; i < g.NE; ++i) { EmM* e = g.em[i]; if (!e || !e->live) continue; for (int sig = 0; sig < MAXS; ++sig) if (e->depth[sig] == 0) { Vec<Rec>& v = e->recs[sig]; size_t k = 0; for (size_t q = 0; q < v.n; ++q) if (v[q].live) { if (k != q) v[k] = v[q]; ++k; } while (v.n > k) v.pop(); } }
   cnt("op_destroy_listener"); if (g.frames.n) cnt(own ? "op_destroy_listener_in_own_slot" : "op_destroy_listener_in_other_slot"); if (pending) cnt("op_destroy_listener_with_pending_slots");
@@ -607,6 +655,7 @@ static void actDestroyE(EmM* e) {
   for (int sig = 0; sig < MAXS; ++sig) { Vec<Rec>& v = e->recs[sig]; for (size_t q = 0; q < v.n; ++q) if (v[q].live) { v[q].live = false; v[q].why = W_EMITTER_DESTROYED; v[q].diedAt = g.clock; } }
   e->live = false;
   Em* obj = e->obj; e->obj = 0;
+  ++g_ops;
   delete obj;
   cnt("op_destroy_emitter"); if (emitting) { cnt("op_destroy_emitter_while_emitting"); if (depthSum > 1) cnt("op_destroy_emitter_with_nested_emissions"); } else if (g.frames.n) cnt("op_destroy_emitter_in_slot");
   g.fp = mix(g.fp, 15 + (u64)e->idx * 7 + (u64)depthNow() * 1000);
@@ -617,7 +666,7 @@ static void actCreateL(int idx) {
   CtxScope cs;
   setctxf("Listener.create/%s", g.frames.n == 0 ? "quiescent" : "in-slot");
   histf("L%d = new listener", idx);
-  LiM* l = new LiM; l->idx = idx; l->gen = ++g.gen; l->live = true; l->obj = new Li(l->gen);
+  LiM* l = new LiM; l->idx = idx; l->gen = ++g.gen; l->live = true; ++g_ops; l->obj = new Li(l->gen);
   g.allL.push(l); g.li[idx] = l; cnt("op_create_listener");
   g.fp = mix(g.fp, 16 + (u64)idx);
   diagnose();
@@ -645,6 +694,7 @@ static void actCreateE(int idx) {
   EmM* e = new EmM; e->idx = idx; e->gen = ++g.gen; e->live = true; for (int s = 0; s < MAXS; ++s) { e->depth[s] = 0; e->outerStart[s] = 0; e->everConn[s] = false; }
   drawSignals(e);
   histf("E%d = new emitter   # signals %s, %s, %s", idx, SN(e, 0), SN(e, 1), SN(e, 2));
+  ++g_ops;
   e->obj = new Em(e->gen);
   g.allE.push(e); g.em[idx] = e; cnt("op_create_emitter");
   g.fp = mix(g.fp, 17 + (u64)idx + (u64)e->sid[0] * 100 + (u64)e->sid[1] * 10000 + (u64)e->sid[2] * 1000000);
@@ -780,7 +830,20 @@ static void freeModels() {
 }
 static void top(const char* name) { g.topAction = name; }
 
+// final sweep: every signal index of every live emitter that ever had a connection is emitted once more at top level, without nested actions. Whatever record the
+// library kept although the connection is gone, lost although it is live, or filed in another order than the connection order becomes a wrong / missing / misordered
+// invocation here at the latest - also when the program itself never emitted that signal again (the only way the fallback flavour gets to see such a record)
+static void finalSweep() {
+  long savedBudget = g.slotBudget; void (*savedScript)(const SlotCtx&) = g.script; g.slotBudget = 0; g.script = 0;
+  for (int i = 0; i < g.NE; ++i) {
+    EmM* e = g.em[i]; if (!e || !e->live) continue;
+    for (int s = 0; s < MAXS; ++s) if (e->everConn[s]) { top("final-sweep-emit"); size_t before = liveCount(e, s); actEmit(e, s); quiescentCheck(); cnt("final_sweep_emissions"); cnt("final_sweep_invocations_matched", (long)before); }
+  }
+  g.slotBudget = savedBudget; g.script = savedScript;
+}
+
 static void destroyEverything() {
+  finalSweep();
   // remaining objects go in random order, with a quiescent check after each
   for (;;) {
     int cand[MAXE + MAXL], n = 0;
@@ -843,7 +906,6 @@ static void randomPrograms() {
     if (idx % 1499 == 7 || (nontrivial && idx % 997 == 3)) sample("%.1500s", hist.c());
     endCase(g.fp, nontrivial);
   }
-  cnt("records_compared_by_walks", g_recordsCompared);
 }
 
 // ------------------------------------------------------------------------------------------------ exhaustive small programs
@@ -911,7 +973,6 @@ static void exhaustivePrograms(int M, int N, bool allArities) {
     endCase(g.fp, nontrivial);
     cnt("exhaustive_programs"); if (allArities) cnt("exhaustive_programs_all_arities");
   }
-  cnt("records_compared_by_walks", g_recordsCompared); g_recordsCompared = 0;
 }
 
 // ------------------------------------------------------------------------------------------------ scripted scenarios (probes for the findings; also run as fixed regression cases)
@@ -972,7 +1033,7 @@ static int probe(const char* key) {
 int main(int argc, char** argv) {
   init(argc, argv, "h_callback");
   checkKeysDistinct();
-  if (opts.probe) { int rc = probe(opts.probe); finish(); return rc; }
+  if (opts.probe) { int rc = probe(opts.probe); flushWalkStats(); finish(); return rc; }
   if (!strcmp(opts.mode, "programs")) {
     // the three scripted scenarios (each for every arity) are part of every shard's workload (cheap), unless their trigger is a listed finding
     // (replay of a failing scripted scenario: --start -1 --cases 1)
@@ -991,7 +1052,7 @@ int main(int argc, char** argv) {
     exhaustivePrograms(opts.mode[3] - '0', opts.mode[4] - '0', opts.mode[5] == 'x');
   else harnessBug("unknown mode %s", opts.mode);
   flushArityStats();
-  cnt("listener_walks_of_slot_on_two_signals_of_one_emitter", g_twinStatesWalked);
+  flushWalkStats();
   leakCheck("Callback/leak");
   finish();
   return 0;
